@@ -199,6 +199,12 @@ class StdioBurst(Suite):
         for k in ks:
             for split in (False, True):
                 out.append({"k": k, "split": split, "id": f"burst-{k}", "D": 4 * P})
+        # the same bursts on a connection whose protocol version has been negotiated (what
+        # stdio_client_with_initialize / MCPClient do): with and without batching support
+        for ver in ("2025-06-18", "2025-03-26", "2024-11-05"):
+            for k in (ks if budget != "quick" else [0, 1, 3, 99, 101]):
+                for split in (False, True):
+                    out.append({"k": k, "split": split, "id": f"burst-{k}", "D": 4 * P, "ver": ver})
         return out
 
     def impl_batch(self, cases):
@@ -225,6 +231,8 @@ class StdioBurst(Suite):
             try:
                 async with client:
                     read, write = client.get_streams()
+                    if case.get("ver"):
+                        client.set_protocol_version(case["ver"])
                     try:
                         o["p"] = await send_message(read, write, "tools/call", {"k": case["k"]},
                                                     timeout=case["D"] * vloop.TICK, message_id=case["id"])
@@ -260,7 +268,7 @@ class StdioBurst(Suite):
         return None if (o.get("outcome"), o.get("p")) == (m.get("outcome"), m.get("p")) else "differs"
 
     def kind(self, case, o):
-        return f"stdio-burst/{o.get('outcome')}/k{'<100' if case['k'] < 100 else '>=100'}"
+        return f"stdio-burst/{o.get('outcome')}/k{'<100' if case['k'] < 100 else '>=100'}/ver={case.get('ver')}"
 
     def nontrivial(self, case, o):
         return case["k"] > 0
@@ -278,6 +286,10 @@ class StdioBurst(Suite):
         for k in (100, 101, case["k"] // 2):
             if 0 <= k < case["k"]:
                 yield dict(case, k=k, id=f"burst-{k}")
+        if case.get("ver"):
+            c = dict(case)
+            c.pop("ver")
+            yield c
 
 
 def suites():
